@@ -27,7 +27,7 @@ PROPS = {
         rule=("case = (kernel group, N, block of residues p mod 2N | special class list | sampled block | wrapper "
               "call sequence); distinct by descriptor hash; non-trivial when N >= 2 (maps differ from identity "
               "for some p in the block)"),
-        require={"all": ["rot_p_checked", "auto_p_checked", "wrapper_calls", "inplace_unequal_size_calls", "cross_dimension_sequences", "auto_branch:cycles",
+        require={"all": ["rot_p_checked", "auto_p_checked", "wrapper_calls", "inplace_unequal_size_calls", "cross_dimension_sequences", "concurrent_map_calls", "auto_branch:cycles",
                          "auto_branch:mirror", "auto_branch:negate", "auto_branch:negamirror",
                          "auto_branch:identity"]},
         assumptions=["index-map oracle uses 128-bit Euclidean remainders; probe a_i=i+1 is injective so one probe "
@@ -54,7 +54,7 @@ PROPS = {
         rule=("case = one call (operation, level module/kernel, module type, dispatch, N, res/a/b limb counts, stride "
               "choices, extra-limb flag); distinct by descriptor hash; non-trivial when res_size >= 1 and at least one "
               "source limb is used"),
-        require={"all": ["limbs_compared", "dispatch:native", "dispatch:generic", "dispatch:kernel-avx", "dispatch:kernel-ref", "aliased_calls"]},
+        require={"all": ["limbs_compared", "dispatch:native", "dispatch:generic", "dispatch:kernel-avx", "dispatch:kernel-ref", "aliased_calls", "interleaved_view_calls"]},
         assumptions=["per-limb definition evaluated by the harness (missing limb = 0)",
                      "stride padding and guard bands are ASan-poisoned and carry canaries; inputs are byte-snapshotted", ASAN_NOTE],
     ),
@@ -76,7 +76,7 @@ PROPS = {
         rule=("case = one (N, nrows, ncols, a_size, res_size, a stride, dispatch, operand magnitude class) shape: "
               "prepare + both apply entry points + inverse DFT; distinct by descriptor hash; non-trivial when "
               "min(nrows,a_size) >= 1 and min(ncols,res_size) >= 1 (zero-size classes are counted separately)"),
-        require={"all": ["shapes_checked", "columns_checked", "zero_columns_checked", "exact_regime_columns",
+        require={"all": ["shapes_checked", "columns_checked", "zero_columns_checked", "exact_regime_columns", "zero_polynomial_matrix_entries",
                          "layout:column-major(N<8)", "layout:blocked", "layout:blocked(one block)"]},
         assumptions=["exact oracle per (row, column) product summed in 128-bit integers; budget = sum of the C01 "
                      "budgets of the rows + 1/2", "scratch buffers are exactly *_tmp_bytes and NaN-prefilled", ASAN_NOTE],
@@ -155,7 +155,7 @@ PROPS = {
               "family); pointwise mul/addmul (layout, variant, m, family, aliasing); convolution (sizea, sizeb) over all "
               "windows; distinct by descriptor hash; non-trivial when at least one row / term / operand is non-empty"),
         require={"all": ["blocks_checked", "layout_roundtrips", "dot_products", "pointwise_vectors",
-                         "convolution_windows", "fftvec:cplx:avx512", "fftvec:cplx:sse", "fftvec:reim4:fma"]},
+                         "convolution_windows", "fftvec:cplx:avx512", "fftvec:cplx:sse", "fftvec:reim4:fma", "simple_api_calls"]},
         assumptions=["complex-arithmetic oracle in long double with the rounding budgets of DESIGN Appendix A",
                      "the inner order of the four numbers of a reim4 block produced by reim4_from_cplx is not "
                      "constrained (the library uses 0,2,1,3); the round trip and the re/im pairing are", ASAN_NOTE],
@@ -167,7 +167,7 @@ PROPS = {
               "limb counts, strides, p class, repetition): the out-of-place call on a copy and the aliased call; "
               "distinct by descriptor hash; non-trivial when the aliased operand and the output have >= 1 limb"),
         require={"all": ["aliased_pairs", "alias:vec_znx_idft(res==a_dft)", "alias:vec_znx_add(res==b)",
-                         "alias:vec_znx_big_sub_small_a(res==b)", "alias:reim_fftvec(r==a==b)", "alias:cplx_fftvec(r==b)"]},
+                         "alias:vec_znx_big_sub_small_a(res==b)", "alias:reim_fftvec(r==a==b)", "alias:cplx_fftvec(r==b)", "concurrent_aliased_calls"]},
         assumptions=["the aliased buffer is the very same pointer with the same stride; it holds live (stale) data beyond "
                      "the aliased operand's limb count", "bitwise equality with the out-of-place call (same kernel runs)", ASAN_NOTE],
     ),
